@@ -4,6 +4,7 @@ import Yv.Cert.Auto
 import Yv.Cert.Complete
 import Yv.Model.Drive
 import Yv.Model.XDrv
+import Yv.Model.Visitor
 /-! `ymodel`: line-protocol driver. Reads the dump the Go harness wrote for each case (grammar as
     the implementation built it, plus the implementation's automaton, lookaheads, table, packed
     arrays) and prints, per case,
@@ -198,6 +199,64 @@ def processX (out : IO.FS.Stream) (x : XAcc) : IO Unit := do
     if x.wantTrace then out.putStrLn (s!"XT {i} " ++ " ".intercalate (o.trace.map evStr))
   out.putStrLn "XEND"
 
+def hexVal (c : Char) : Nat :=
+  if c.isDigit then c.toNat - '0'.toNat else if 'a' ≤ c && c ≤ 'f' then c.toNat - 'a'.toNat + 10 else 0
+
+def hexDecode (s : String) : ByteArray :=
+  let rec go : List Char → ByteArray → ByteArray
+    | a :: b :: rest, acc => go rest (acc.push (UInt8.ofNat (hexVal a * 16 + hexVal b)))
+    | _, acc => acc
+  go s.toList ByteArray.empty
+
+def quoteAscii (s : String) : String :=
+  let body := s.toList.foldl (fun acc c =>
+    acc ++ (if c == '"' then "\\\"" else if c == '\\' then "\\\\" else if c == '\n' then "\\n"
+            else if c == '\t' then "\\t" else if c == '\r' then "\\r"
+            else if c.toNat < 32 || c.toNat == 127 then
+              let h := Nat.toDigits 16 c.toNat
+              "\\x" ++ (if h.length < 2 then "0" else "") ++ String.ofList h
+            else String.singleton c)) ""
+  "\"" ++ body ++ "\""
+
+/-- the front end on one text: tokens, AST, grammar or refusal -/
+def processF (out : IO.FS.Stream) (id : String) (hex : String) : IO Unit := do
+  out.putStrLn s!"FCASE {id}"
+  match String.fromUTF8? (hexDecode hex) with
+  | none => out.putStrLn "M NONUTF8"
+  | some src =>
+    if src.toList.any (fun c => c.toNat ≥ 128) then out.putStrLn "M NONASCII"
+    else
+    let (toks, ok) := YLex.lexAll src
+    for t in toks do out.putStrLn s!"M TOK {t.kind.name} {quoteAscii t.value} {t.endAt}"
+    if !ok then out.putStrLn "M LEX-OUT-OF-FUEL"
+    match YParse.parse src with
+    | none => out.putStrLn "M AST ERR"
+    | some r =>
+      out.putStrLn s!"M AST code {quoteAscii r.decl.code}"
+      out.putStrLn s!"M AST union {quoteAscii r.decl.union}"
+      out.putStrLn s!"M AST start {quoteAscii r.decl.start}"
+      for td in r.decl.tokDefs do
+        out.putStrLn "M AST tokdef"
+        for i in td do out.putStrLn s!"M AST id {quoteAscii i.name} {i.value} {quoteAscii i.tag} {quoteAscii i.alias}"
+      for pl in r.decl.precDefs do
+        out.putStrLn "M AST precline"
+        for p in pl do out.putStrLn s!"M AST prec {quoteAscii p.name} {p.assoc}"
+      for ty in r.decl.typeDefs do out.putStrLn s!"M AST type {quoteAscii ty.name} {quoteAscii ty.tag}"
+      for ru in r.rules do
+        out.putStrLn s!"M AST rule {quoteAscii ru.lhs} prec {quoteAscii ru.precSym}"
+        for e in ru.rhs do out.putStrLn s!"M AST el {e.ty} {quoteAscii e.el}"
+      out.putStrLn s!"M AST rest {quoteAscii r.rest}"
+      match Visitor.front r with
+      | .error e => out.putStrLn s!"M REFUSE {e.name}"
+      | .ok b =>
+        out.putStrLn s!"M GRAMMAR {b.syms.length} {b.nT}"
+        let nl := Visitor.nullable b
+        for sy in b.syms do
+          out.putStrLn s!"M SYM {sy.id} {if sy.isNT then 1 else 0} {sy.value} {sy.prec} {sy.assoc} {if nl.contains sy.id then 1 else 0} {quoteAscii sy.name} {quoteAscii sy.tag}"
+        for (i, r) in b.rules.zipIdx.map (fun (r, i) => (i, r)) do
+          out.putStrLn (s!"M RULE {i} {r.lhs} {r.precSym} " ++ nats r.rhs)
+  out.putStrLn "FEND"
+
 def unq (s : String) : String := s
 
 partial def loop (inp out : IO.FS.Stream) (a : CaseAcc) (x : XAcc := {}) : IO Unit := do
@@ -238,6 +297,9 @@ partial def loop (inp out : IO.FS.Stream) (a : CaseAcc) (x : XAcc := {}) : IO Un
   match ws with
   | "XCASE" :: id :: _ => loop inp out a { id := id, active := true }
   | "PCASE" :: id :: _ => loop inp out a { id := id, isPack := true }
+  | "FCASE" :: id :: _ => loop inp out { id := id }
+  | "SRC" :: hex :: _ => do processF out a.id hex; loop inp out {}
+  | ["SRC"] => do processF out a.id ""; loop inp out {}
   | "CASE" :: id :: _ => loop inp out { id := id }
   | "REFUSE" :: cls :: _ => loop inp out { a with refuse := some cls }
   | "GRAMMAR" :: n :: t :: _ =>
